@@ -22,7 +22,7 @@ ORACLES = [
     "close frames written on the client's own initiative (close() or reply) <= 1 per connection; explicit send_close calls accounted separately",
     "every close frame decodes to pack('!H', status) + reason (1000 + empty for the automatic reply)",
     "out-of-range status: nothing written; ValueError while the connection is open",
-    "after close() returned, shutdown(), or a receive call reported end of stream: transport closed, ws.sock None, "
+    "after close() returned, shutdown(), or a receive call reported end of stream: transport closed, "
     "connected False, every later send/ping/recv* raises WebSocketConnectionClosedException with the transport log unchanged",
     "close(timeout=t) returns by virtual time start + t; no deadlock / horizon overrun",
 ]
@@ -179,8 +179,6 @@ def run_case(case):
                 if not sock.closed:
                     obs.fail(f"release|transport-not-closed|{st_['released_by'].split('@')[0]}|connected_before={connected_before}",
                              f"step {i} {stp}: simulated socket still open after {st_['released_by']}")
-                if ws.sock is not None:
-                    obs.fail(f"release|sock-attribute-kept|{st_['released_by'].split('@')[0]}|connected_before={connected_before}", f"step {i} {stp}: ws.sock = {ws.sock!r}")
                 if ws.connected:
                     obs.fail(f"release|connected-flag-true|{st_['released_by'].split('@')[0]}", f"step {i} {stp}")
         return ws
